@@ -298,10 +298,19 @@ def buffer_rules(ctx, rule_c, rule_d, rule_f):
                      "for the addressed store", {"witness": "results of one id are computed with another store / language"})
 
 
-def forwarders(ctx, rule):
-    """API functions forward their parameters positionally"""
+def forwarders(ctx, rule, only=None):
+    """API functions forward their parameters positionally.  only: restrict to obligation keys starting with one of these prefixes"""
     facts = ctx.facts
     model = ctx.model
+    if only is not None:
+        class _Sel(object):
+            def __init__(self, c): self.c = c
+            def __getattr__(self, n): return getattr(self.c, n)
+            def ok(self, rule_, key, *a, **k):
+                if key.startswith(tuple(only)): return self.c.ok(rule_, key, *a, **k)
+            def fail(self, rule_, key, *a, **k):
+                if key.startswith(tuple(only)): return self.c.fail(rule_, key, *a, **k)
+        ctx = _Sel(ctx)
     # Record::new(id, source, rating, lang) inside add_record
     for b in facts.fns():
         sy = ctx.sym(b)
